@@ -42,6 +42,12 @@ C3b == {0, 1, 3}
 C2c == {0, 1}
 C2d == {0, 7}
 C2e == {1, 2}
+C6 == {0, 1, 2, 5, 7, 10}
+C3c == {0, 1, 2}
+C4d == {0, 1, 3, 4}
+MV23s == {<<2, 3>>, <<2, 3, 2>>}
+MV7s == {<<1, 2>>, <<2, 4, 2>>}
+MV11s == {<<3, 4, 3>>}
 
 Pars == {pr \in [G : {G}, var : Vars, N : Ns, sigma : 0..7, M : MsgVecs] : ParOK(pr)}
 Init == st \in {Fresh(pr) : pr \in Pars}
@@ -67,9 +73,14 @@ AbortMeasure ==
            good == Q * Q * Falling(Q - 1, pr.N - 1) * (IF pr.var = "n" THEN Q ELSE 1)
        IN Cardinality(bad) = Cardinality(all) - good
 
-\* ---- slot theorem
-ThmInit == st \in [a : AllZq, b : AllZq, c : AllZq]
-ThmNext == UNCHANGED st
+\* ---- slot theorem: a tree root -> a -> (a, b) -> (a, b, c), so that the workers share the leaves
+ThmInit == st = [k |-> 0]
+ThmNext == \/ st.k = 0 /\ \E a \in AllZq : st' = [k |-> 1, a |-> a]
+           \/ st.k = 1 /\ \E b \in AllZq : st' = [k |-> 2, a |-> st.a, b |-> b]
+           \/ st.k = 2 /\ \E c \in AllZq : st' = [k |-> 3, a |-> st.a, b |-> st.b, c |-> c]
 ThmSpec == ThmInit /\ [][ThmNext]_st
-SlotTheorem == ThSlot(G, st.a, st.b, st.c, IF Q <= 11 THEN Elems(G) ELSE {1, Gg, PowM(Gg, Q - 1, P)})
+ThmMsgs == IF Q <= 11 THEN Elems(G) ELSE {1, Gg, PowM(Gg, Q - 1, P)}
+SlotTheorem == (st.k = 3) => ThSlot(G, st.a, st.b, st.c, ThmMsgs)
+SlotTheoremFew == (st.k = 3) => ThSlot(G, st.a, st.b, st.c, {1, Gg, PowM(Gg, Q - 1, P)})
+SlotTheoremOne == (st.k = 3) => ThSlot(G, st.a, st.b, st.c, {Gg})
 =============================================================================
